@@ -25,6 +25,7 @@ func init() {
 			"(post) in every generated stub method the replies sent after the implementation ran are guarded by Type != Post; " +
 			"(delivery) dispatch is the only sender on handler queues, under the mutex, and removes a single-shot handler in the same critical section (shared with C17). " +
 			"Known finding: a malformed Post is answered with an Error before the method runs. " +
+			"(serial) one goroutine hands an object its messages one at a time, for service objects and client-side objects; (post-errors) no Channel implementation answers an error to anything but a Call. " +
 			"Not decided: exactly-once execution and own-result under all interleavings, mailbox FIFO, what the implementation computes.",
 		Assumptions: []string{"message-type constants: Call=1, Post=4 (read from bus/net on every run)", "call graph: VTA over go/ssa for the escape rule"},
 		Run:         runC04,
